@@ -26,7 +26,7 @@ their bytes alive whatever the arena does next.
 
 ASSUMPTIONS = ['ByteArena::read_n semantics (C17)']
 
-FLOORS = {'R8.1': 7, 'R8.2': 4, 'R8.3': 3, 'R8.4': 5, 'R8.5': 20}
+FLOORS = {'R8.1': 7, 'R8.2': 4, 'R8.3': 3, 'R8.4': 5, 'R8.5': 1}
 
 PUMP = 'hcobs::stream_reader::StreamChunker::pump'
 ASLICE = 'byte_arena::AnchoredSlice'
@@ -314,9 +314,9 @@ def is_buf_len_arg(a):
 
 
 def r8_5(cx):
-    """what pump stands on: read_n fills a block through short reads / EINTR (R17.1-R17.3); the Data slices it cuts keep their bytes alive (R5.4)"""
+    """what pump stands on: read_n fills a block through short reads / EINTR with a buffer of exactly the block asked for, whatever the block size (R17.1-R17.3, R17.5, R17.7); the Data slices it cuts keep their bytes alive and no other arena hands out the same bytes (R5.4, R5.9)"""
     from . import c17, c05
-    compose(cx, [('R17.1', c17.r17_1), ('R17.2', c17.r17_2), ('R17.3', c17.r17_3), ('R5.4', c05.r5_4)])
+    compose(cx, [('R17.1', c17.r17_1), ('R17.2', c17.r17_2), ('R17.3', c17.r17_3), ('R17.5', c17.r17_5), ('R17.7', c17.r17_7), ('R5.4', c05.r5_4), ('R5.9', c05.r5_9)])
 
 
 RULES = [('R8.1', r8_1), ('R8.2', r8_2), ('R8.3', r8_3), ('R8.4', r8_4), ('R8.5', r8_5)]
